@@ -13,12 +13,12 @@ META = dict(
     level='exploration',
     exhaustive=False,
     rule=('per logic: EXHAUSTIVE slice = every argument (<=1 premise with <=1 connective, conclusion with <=1 connective) over '
-          'atoms {a,b} and the 8 truth-functional operators (930 arguments; quick takes all 30 one-sentence arguments and a seeded half of the 900 pairs; thorough takes all, adds every one-sentence argument with '
+          'atoms {a,b} and the 8 truth-functional operators (930 arguments; quick takes all 30 one-sentence arguments, a seeded third (sixth in the weak Kleene families) of the 900 pairs and every negated one-connective sentence under 7 literal premise patterns; thorough takes all, adds every one-sentence argument with '
           '<=2 connectives and runs all 4 optimisation combos) + seeded random arguments (depth<=4, <=3 premises, 3 atoms). Each is '
           'built without limits (monitoring cap only) and the verdict compared with the complete truth-table entailment of '
           'REF-SEM. non-trivial = distinct (logic, argument) with >= 2 connectives in total, or whose proof took >= 2 steps.'),
     assumptions=['REF-SEM truth tables', 'monitoring cap of 250 (thorough 1500) steps: a longer loop-free proof is counted inconclusive; non-termination is detected as the same rule expanding the same node twice on one branch'],
-    min_events={'any': {'verdict_valid_confirmed': 2000, 'verdict_invalid_confirmed': 2000, 'logics': 52}},
+    min_events={'any': {'verdict_valid_confirmed': 1500, 'verdict_invalid_confirmed': 1500, 'logics': 52}},
     budget=dict(quick=1500, thorough=7200),
     unit_timeout=dict(quick=900, thorough=3000),
 )
@@ -136,7 +136,16 @@ def run_unit(unit, out, tier, seed):
     n = 0
     if tier != 'thorough':
         # quick: all one-sentence arguments + a seeded half of the pair slice
-        args = [a for i, a in enumerate(args) if not a[0] or (i + seed) % 2 == 0]
+        # (the 3-branching reduction rules make the weak Kleene families an order of magnitude slower)
+        k = 6 if S.base_name in ('K3W', 'K3WQ', 'B3E') else 3
+        args = [a for i, a in enumerate(args) if not a[0] or (i + seed) % k == 0]
+    # every negated one-connective sentence (the node shapes of the 'Negated' rules), as conclusion and as premise
+    from ..ref import syn as _syn
+    negs = [_syn.neg(s_) for s_ in one if s_[0] == 'O']
+    atoms_ = [s_ for s_ in one if s_[0] == 'A']
+    a_, b_ = atoms_[0], atoms_[1]
+    pats = [(), (a_,), (_syn.neg(a_),), (a_, b_), (a_, _syn.neg(b_)), (_syn.neg(a_), b_), (_syn.neg(a_), _syn.neg(b_))]
+    args += [(p_, n_) for n_ in negs for p_ in pats] + [((n_,), a_) for n_ in negs]
     for arg in args:
         cfgs = combos if tier == 'thorough' else [combos[(n + seed) % 4]]
         for cfg in cfgs:
@@ -150,7 +159,7 @@ def run_unit(unit, out, tier, seed):
                 check_arg(name, S, ((), s), combos[n % 4], out, True)
                 n += 1
     g = gen.SentGen(rng, 'prop')
-    nrand = 2000 if tier == 'thorough' else 100
+    nrand = 2000 if tier == 'thorough' else (40 if S.base_name in ('K3W', 'K3WQ', 'B3E') else 80)
     for i in range(nrand):
         arg = g.argument(max_prem=3, depth=rng.choice([2, 3, 3, 4] if tier == 'thorough' else [2, 2, 3]))
         check_arg(name, S, arg, combos[rng.randrange(4)], out, False)
